@@ -83,29 +83,68 @@ def rule_fpenv(ctx, R, F, config):
     R.check(not writes, inst + ' saved-var-unmodified', loc(sc, f), expected='saved state variable is written only by the save', found=writes or 'no other write')
 
 
+def _helper_summaries(F):
+    """For functions of src/randomx.cpp that are not API drivers: does the function (transitively) call run(),
+    and is every such run dominated by a reset inside the function; does a reset post-dominate its entry."""
+    unit = F.unit(RANDOMX_CPP)
+    local = {f['q']: f for f in unit['functions'] if f['file'].endswith('randomx.cpp') and f['q'] not in DRIVERS}
+    summ = {}
+
+    def summarize(q, stack=()):
+        if q in summ:
+            return summ[q]
+        if q in stack:
+            return dict(may_run=False, unguarded_run=False, must_reset=False)
+        f = local[q]
+        g = CFG(f)
+        runs = [n for n, c in g.find_calls(lambda c: c.get('fn') == 'randomx_vm::run')]
+        resets = [n for n, c in g.find_calls(lambda c: c.get('fn') == 'randomx_vm::resetRoundingMode', must=True)]
+        for n, c in g.find_calls(lambda c: c.get('fn') in local):
+            sub = summarize(c['fn'], stack + (q,))
+            if sub['may_run']:
+                if sub['unguarded_run']:
+                    runs.append(n)
+            if sub['must_reset']:
+                resets.append(n)
+        unguarded = any(not any(g.dominates(r, n) and r != n for r in resets) for n in runs)
+        may_run = bool(runs) or any(summarize(c['fn'], stack + (q,))['may_run'] for n, c in g.find_calls(lambda c: c.get('fn') in local))
+        must_reset = any(g.postdominates(r, g.entry) for r in resets)
+        summ[q] = dict(may_run=may_run, unguarded_run=unguarded, must_reset=must_reset)
+        return summ[q]
+    for q in local:
+        summarize(q)
+    return summ
+
+
 def rule_reset(ctx, R, F, config='K0'):
-    R.rule('DRV-RESET', 'in every hash driver a call of resetRoundingMode() on the machine dominates every call of run()', min_instances=3)
+    R.rule('DRV-RESET', 'in every hash driver a call of resetRoundingMode() on the machine dominates every call of run() (helper functions of randomx.cpp are summarised: '
+           'a helper that runs programs without resetting first counts as a run site); the reset itself unconditionally writes the fixed default word', min_instances=3)
+    summ = _helper_summaries(F)
+    total_runs = 0
     for name in DRIVERS:
         if not F.has_func(name):
             raise AnalysisBroken('driver %s missing' % name)
         f = F.func(name, unit=RANDOMX_CPP)
         g = CFG(f)
         R.saw(fn=f['q'], unit=RANDOMX_CPP, config=config)
-        runs = g.find_calls(lambda c: c.get('fn') == 'randomx_vm::run')
-        resets = g.find_calls(lambda c: c.get('fn') == 'randomx_vm::resetRoundingMode', must=True)
-        if not runs:
-            continue
-        for n, c in runs:
-            okr = [rn for rn, rc in resets if g.dominates(rn, n) and rn != n and show(rc.get('this')) == show(c.get('this'))]
-            R.check(bool(okr), '%s: run at line %s' % (name, '#%d' % (runs.index((n, c)))), loc(c, f), expected='dominated by machine->resetRoundingMode()',
+        runs = g.find_calls(lambda c: c.get('fn') == 'randomx_vm::run' or (c.get('fn') in summ and summ[c['fn']]['unguarded_run']))
+        resets = g.find_calls(lambda c: c.get('fn') == 'randomx_vm::resetRoundingMode' or (c.get('fn') in summ and summ[c['fn']]['must_reset']), must=True)
+        total_runs += len(runs)
+        for idx, (n, c) in enumerate(runs):
+            okr = [rn for rn, rc in resets if g.dominates(rn, n) and rn != n]
+            R.check(bool(okr), '%s: run site #%d (%s)' % (name, idx, c.get('name')), loc(c, f), expected='dominated by machine->resetRoundingMode()',
                     found='dominating resets: %d of %d' % (len(okr), len(resets)))
-    # the reset itself must set the fixed default word
+    if total_runs < 3:
+        raise AnalysisBroken('DRV-RESET: only %d program-run sites found in the drivers' % total_runs)
+    # the reset itself must set the fixed default word on every path
     f = F.func('randomx_vm::resetRoundingMode')
-    cs = calls(f['body'])
-    names = [c.get('name') for c in cs]
-    if config == 'K0':
-        okc = [c for c in cs if c.get('name') == '_mm_setcsr' or c.get('name') == 'rx_reset_float_state']
-        R.check(bool(okc), 'resetRoundingMode body', '%s:%d' % (f['file'], f['line']), expected='calls rx_reset_float_state', found=names)
+    g = CFG(f)
+    want = ('_mm_setcsr', 'rx_reset_float_state')
+    cs = g.find_calls(lambda c: c.get('name') in want, must=True)
+    okc = any(g.postdominates(n, g.entry) for n, c in cs)
+    R.check(okc, 'resetRoundingMode is unconditional', '%s:%d' % (f['file'], f['line']), expected='rx_reset_float_state() on every path', found=[show(c) for n, c in cs] or [c.get('name') for c in calls(f['body'])])
+    other = [c.get('name') for c in calls(f['body']) if c.get('name') not in want]
+    R.check(not other, 'resetRoundingMode reads no FP state', '%s:%d' % (f['file'], f['line']), expected='no other call', found=other or 'none')
 
 
 def rule_resetword(ctx, R, F):
@@ -175,7 +214,7 @@ def rule_noleak(ctx, R):
 
 
 # ---------------------------------------------------------------------------------------------
-def seq_of(f, stmt=None):
+def seq_of(f, stmt=None, helpers=None, depth=0):
     """Structured call summary of a function body: list of strings and ('loop', trip, [..]) tuples.
     Arguments are normalised with show(fold())."""
     out = []
@@ -220,7 +259,15 @@ def seq_of(f, stmt=None):
             for c in calls(s):
                 if c.get('name') in ('__assert_fail',):
                     continue
-                # nested calls in arguments are part of the argument text; keep only outermost + nested explicitly
+                h = helpers.get(c.get('fn')) if helpers else None
+                if h is not None and depth < 4:
+                    # inline a helper of the same unit: its parameters are replaced by the argument text
+                    ren = dict(astq._REN[0] or {})
+                    for p_, a_ in zip(h['params'], c.get('a', [])):
+                        ren[p_['id']] = astq.showv(a_)
+                    with astq.renaming(ren):
+                        acc.extend(seq_of(h, helpers=helpers, depth=depth + 1))
+                    continue
                 acc.append(norm(c))
     rec(stmt or f['body'], out)
     return out
@@ -298,12 +345,13 @@ def rule_seq(ctx, R, F):
     hs = int(F.macro('RANDOMX_HASH_SIZE')['body'])
     regsize = F.record('randomx::RegisterFile')['size']
     drop = list(SAVE) + list(RESTORE) + ['__assert_fail']
+    helpers = {f_['q']: f_ for f_ in F.unit(RANDOMX_CPP)['functions'] if f_['file'].endswith('randomx.cpp') and f_['q'] not in DRIVERS and not f_.get('externC')}
 
     def seq(name):
         f = F.func(name, unit=RANDOMX_CPP)
         R.saw(fn=f['q'], unit=RANDOMX_CPP, config='K0')
         with astq.renaming(seed_ren(f)):
-            s = outer_calls(seq_of(f))
+            s = outer_calls(seq_of(f, helpers=helpers))
         return f, [x for x in s if not (isinstance(x, str) and x.split('(')[0] in drop)]
 
     def sub(s, a, b):
